@@ -141,6 +141,7 @@ def dump_ent(ent: EntityDef) -> dict:
         'helpers': [dump_helper(h) for h in ent.helpers],
         'desc': ent.desc,
         'kv': attr_map(ent.keyvalues, dump_kv, effective_kv_order(ent)),
+        'kvmap': list(ent.keyvalues),
         'inputs': attr_map(ent.inputs, dump_io, list(ent.inputs)),
         'outputs': attr_map(ent.outputs, dump_io, list(ent.outputs)),
         'resources': None if isinstance(res, tuple) and len(res) == 0 else
@@ -154,6 +155,7 @@ def canon_text(d: dict) -> dict:
     section); a boolean default ''/'no' is 0 and 'yes' is 1 (writer and reader both say so); I/O types
     decay as documented."""
     out = dict(d)
+    del out['kvmap']        # the map order becomes the effective order after a text round trip
     kvs = []
     for name, variants in d['kv']:
         nv = []
@@ -183,7 +185,9 @@ def canon_bin(d: dict) -> dict:
     out = dict(d)
     out['desc'] = ''
     out['helpers'] = []
-    out['kv'] = [[name, [[tags, dict(kv, desc='')] for tags, kv in variants]] for name, variants in d['kv']]
+    by_name = {name: variants for name, variants in d['kv']}
+    out['kv'] = [[name, [[tags, dict(kv, desc='')] for tags, kv in by_name[name]]] for name in d['kvmap']]
+    del out['kvmap']
     for key in ('inputs', 'outputs'):
         out[key] = [[name, [[tags, dict(v, desc='')] for tags, v in variants]] for name, variants in d[key]]
     if not d['resources']:
@@ -364,6 +368,8 @@ def ent_features(d: dict) -> list:
                     feats.add('kv_nothing_after_colon')
             if tags:
                 feats.add('kv_tags')
+            if kv['type'] == 'SPAWNFLAGS':
+                feats.add('has_flags')
             for s in (kv['disp'], kv['default'], kv['desc']):
                 if '"' in s:
                     feats.add('quote')
@@ -792,10 +798,14 @@ def get_menus() -> dict:
     return _MENUS
 
 
+LATE_FIELDS = {'shape', 'names'}
+
+
 def apply_devs(spec_fn, menu: dict, devs) -> dict:
     spec = spec_fn()
     look = {(f, lab): mut for f, entries in menu.items() for lab, _, mut in entries}
-    for f, lab in devs:
+    # structure-changing fields are applied last so that the other mutators still find their targets
+    for f, lab in sorted(devs, key=lambda d: d[0] in LATE_FIELDS):
         look[(f, lab)](spec)
     return spec
 
@@ -822,13 +832,13 @@ def gen_problems(devs, cs: bool, ls: bool):
     return text_roundtrip(doc, expect, cs, ls, spec['ignore_unknown'])
 
 
-def minimal_culprit(devs, kind: str, runner) -> list:
-    """Smallest (then first) sub-deviation that alone fails with the same kind."""
+def minimal_culprit(devs, kind: str, field: str, runner) -> list:
+    """Smallest (then first) sub-deviation that alone fails the same oracle clause on the same field."""
     devs = list(devs)
     for r in range(0, len(devs)):
         for sub in itertools.combinations(devs, r):
             probs = runner(list(sub))
-            if probs and any(p[0] == kind for p in probs):
+            if probs and any(p[0] == kind and p[1] == field for p in probs):
                 return [f'{f}={lab}' for f, lab in sub]
     return [f'{f}={lab}' for f, lab in devs]
 
@@ -851,7 +861,7 @@ def check_gen(acc: core.Acc, devs, cs: bool, ls: bool) -> None:
         if (kind, field) in seen:
             continue
         seen.add((kind, field))
-        culprit = minimal_culprit(devs, kind, lambda sub: (gen_problems(sub, cs, ls)[0] or []))
+        culprit = minimal_culprit(devs, kind, field, lambda sub: (gen_problems(sub, cs, ls)[0] or []))
         acc.fail(kind, case, f'generated FGD, deviations {["=".join(d) for d in devs]}, custom_syntax={cs} '
                  f'label_spawnflags={ls}: {detail}', scope='generated', cs=cs, field=field, devs=culprit)
 
@@ -872,7 +882,7 @@ def enum_devs(menu: dict, fields, core_only: bool):
 
 def bin_base_spec() -> dict:
     """Engine format: _CBaseEntity_ plus point entities based on it, no tags on keyvalues / IO.
-    Three filler entities provide the >= 512 distinct strings `serialise` asserts on."""
+    Four filler entities provide the >= 512 distinct strings `serialise` asserts on."""
     spec = {'ents': [], 'ignore_unknown': False}
     spec['ents'].append(ents('_CBaseEntity_', 'BASE',
                              kvs=[kvs('targetname', 'TARG_SOURCE', 'Name', '', ''), kvs('origin', 'VEC_ORIGIN', 'Origin', '0 0 0', '')],
@@ -883,9 +893,9 @@ def bin_base_spec() -> dict:
     spec['ents'].append(ents('ent_b', 'BRUSH', ['_CBaseEntity_'],
                              kvs=[kvs('key1', 'STRING', 'Key One', 'other', ''), kvs('speed', 'FLOAT', 'Speed', '1.5', '')],
                              ins=[ios('In1', 'VOID'), ios('SetSpeed', 'FLOAT')]))
-    for n in range(3):
+    for n in range(4):
         spec['ents'].append(ents(f'filler_{n}', 'POINT', ['_CBaseEntity_'],
-                                 kvs=[kvs(f'f{n}_{i}', 'INT', f'Filler {n} {i}', str(i), '') for i in range(100)]))
+                                 kvs=[kvs(f'f{n}_{i}', 'INT', f'Filler {n} {i}', str(i), '') for i in range(66)]))
     return spec
 
 
@@ -904,9 +914,16 @@ def bin_menus() -> dict:
         def f(spec):
             getter(spec)[key] = value
         return f
-    core_t = {'BOOL', 'EXT_SOUNDSCAPE', 'VOID', 'TARG_DEST'}
-    m['k1.type'] = [(t, t in core_t, setter(bin_key1, 'type', t)) for t in ALL_TYPES
-                    if t not in ('STRING', 'CHOICES', 'SPAWNFLAGS')]
+    core_t = {'BOOL', 'EXT_SOUNDSCAPE', 'VOID', 'TARG_DEST', 'ANGLES'}
+
+    def both_types(t):
+        # keyvalue and input type in one field: both go through the same one-byte type index
+        def f(spec):
+            if t not in ('CHOICES', 'SPAWNFLAGS'):      # these need a list / are rejected by design
+                bin_key1(spec)['type'] = t
+            bin_ent(spec)['ins'][0]['type'] = t
+        return f
+    m['types'] = [(t, t in core_t, both_types(t)) for t in ALL_TYPES if t != 'STRING']
     m['k1.flag'] = [('ro', True, setter(bin_key1, 'ro', True)), ('rep', True, setter(bin_key1, 'rep', True)),
                     ('ro+rep', False, lambda spec: bin_key1(spec).update(ro=True, rep=True))]
     m['k1.empty'] = [('disp', True, setter(bin_key1, 'disp', '')), ('default', False, setter(bin_key1, 'default', '')),
@@ -926,9 +943,6 @@ def bin_menus() -> dict:
                   ('big', False, flags([[1 << 23, 'High', False, []], [1 << 31, 'Top', True, []], [1 << 62, 'Far', True, []]])),
                   ('empty', False, flags([])),
                   ('many', False, flags([[1 << i, f'Flag {i}', i % 2 == 0, []] for i in range(32)]))]
-    core_io = {'BOOL', 'ANGLES', 'EXT_SOUNDSCAPE'}
-    m['in1.type'] = [(t, t in core_io, (lambda t: lambda spec: bin_ent(spec)['ins'][0].update(type=t))(t))
-                     for t in ALL_TYPES if t != 'VOID']
     m['out1.type'] = [(t, False, (lambda t: lambda spec: bin_ent(spec)['outs'][0].update(type=t))(t))
                       for t in ('BOOL', 'TARG_DEST', 'COLOR_1')]
     m['res'] = [
@@ -946,7 +960,7 @@ def bin_menus() -> dict:
             spec['ents'].append(ents(name, 'POINT', [target], alias=True))
         return f
     m['alias'] = [('alias_a', True, alias('ent_a', 'ent_alias')), ('alias_first', False, alias('ent_b', 'aaa_alias')),
-                  ('alias_filler', False, alias('filler_2', 'zzz_alias')),
+                  ('alias_filler', False, alias('filler_3', 'zzz_alias')),
                   ('alias_chain', False, lambda spec: (alias('ent_a', 'alias_1')(spec), alias('alias_1', 'alias_2')(spec)))]
     m['cbase'] = [('ro', False, lambda spec: spec['ents'][0]['kvs'][0].update(ro=True)),
                   ('res', False, lambda spec: spec['ents'][0].update(res=[['base.mdl', 'MODEL', ['A']]])),
@@ -957,7 +971,13 @@ def bin_menus() -> dict:
                   ('no_io', True, lambda spec: bin_ent(spec).update(ins=[], outs=[])),
                   ('many_kv', False, lambda spec: bin_ent(spec)['kvs'].extend(
                       kvs(f'extra{i}', 'FLOAT', f'Extra {i}', str(i / 4), '') for i in range(250))),
-                  ('kv_order', False, setter(bin_ent, 'kv_order', ['key2', 'key1']))]
+                  ('kv_order', False, setter(bin_ent, 'kv_order', ['key2', 'key1'])),
+                  ('second_block', False, lambda spec: spec['ents'].extend(
+                      ents(f'big_{n}', 'NPC', ['_CBaseEntity_'],
+                           kvs=[kvs(f'b{n}_{i}', 'FLOAT', f'Big {i}', '0', '') for i in range(160)]) for n in range(2))),
+                  ('odd_one_out', False, lambda spec: spec['ents'].append(
+                      ents('lonely', 'POINT', ['_CBaseEntity_'],
+                           kvs=[kvs(f'l_{i}', 'FLOAT', f'Lonely {i}', '0', '') for i in range(200)])))]
     return m
 
 
@@ -1027,7 +1047,7 @@ def check_bin_gen(acc: core.Acc, devs) -> None:
         if (kind, field) in seen:
             continue
         seen.add((kind, field))
-        culprit = minimal_culprit(devs, kind, lambda sub: bin_gen_problems(sub)[0])
+        culprit = minimal_culprit(devs, kind, field, lambda sub: bin_gen_problems(sub)[0])
         acc.fail(kind, case, f'generated engine-format FGD, deviations {["=".join(d) for d in devs]}: {detail}',
                  scope='generated', field=field, devs=culprit)
 
@@ -1204,20 +1224,28 @@ def shard(spec) -> core.Acc:
             check_ship_ent(acc, n, cs, ls)
         acc.sample({'part': 'ship_ent', 'cls': names[0], 'cs': cs, 'ls': ls}, 1)
     elif kind == 'gen':
-        _, fields, core_only = spec
+        _, fields, core_only, part, parts = spec
         menu = get_menus()
         n = 0
-        for devs in enum_devs(menu, fields, core_only):
+        for idx, devs in enumerate(enum_devs(menu, fields, core_only)):
+            if idx % parts != part:
+                continue
             for cs, ls in OPTS:
                 check_gen(acc, devs, cs, ls)
             n += 1
         if n:
             acc.sample({'part': 'gen', 'devs': [list(d) for d in devs], 'options': 'all 4'}, 1)
     elif kind == 'bin_gen':
-        _, fields, core_only = spec
+        _, fields, core_only, part, parts = spec
         menu = get_bin_menus()
-        for devs in enum_devs(menu, fields, core_only):
+        n = 0
+        for idx, devs in enumerate(enum_devs(menu, fields, core_only)):
+            if idx % parts != part:
+                continue
             check_bin_gen(acc, devs)
+            n += 1
+        if n:
+            acc.sample({'part': 'bin_gen', 'devs': [list(d) for d in devs]}, 1)
     elif kind == 'bin_ship':
         check_bin_ship(acc)
         acc.sample({'part': 'bin_ship'}, 1)
@@ -1235,17 +1263,30 @@ def shard(spec) -> core.Acc:
     return acc
 
 
-def lattice_shards(tag: str, menu: dict, max_depth: int, core_depth: int) -> list:
+def lattice_shards(tag: str, menu: dict, max_depth: int, core_depth: int, per_shard: int) -> list:
     """Full menus up to max_depth fields, core menus for exactly core_depth fields (if larger)."""
     out = []
+
+    def add(fields, core_only):
+        n = 1
+        for f in fields:
+            n *= sum(1 for _, c, _ in menu[f] if c or not core_only)
+        if n == 0:
+            return
+        parts = max(1, -(-n // per_shard))
+        for part in range(parts):
+            out.append((tag, fields, core_only, part, parts))
     for d in range(0, max_depth + 1):
         for fields in itertools.combinations(sorted(menu), d):
-            out.append((tag, fields, False))
+            add(fields, False)
     if core_depth > max_depth:
         for fields in itertools.combinations(sorted(menu), core_depth):
-            if all(any(c for _, c, _ in menu[f]) for f in fields):
-                out.append((tag, fields, True))
+            add(fields, True)
     return out
+
+
+def lattice_count(menu: dict, shards: list) -> int:
+    return sum(1 for s in shards for idx, _ in enumerate(enum_devs(menu, s[1], s[2])) if idx % s[4] == s[3])
 
 
 def run(ctx: core.Ctx) -> None:
@@ -1262,9 +1303,13 @@ def run(ctx: core.Ctx) -> None:
     names = sorted(dumps)
     for cs, ls in OPTS:
         shards.append(('ship_whole', cs, ls))
-    for cs, ls in OPTS:
+    # label_spawnflags only changes spawnflags captions; in the bundled database only _CBaseEntity_ has a
+    # spawnflags key, so the per-definition runs vary it for that definition alone (the whole-database runs
+    # cover all four option pairs anyway).
+    for cs in (True, False):
         for chunk in core.chunked(names, 60):
-            shards.append(('ship_ents', cs, ls, chunk))
+            shards.append(('ship_ents', cs, True, chunk))
+        shards.append(('ship_ents', cs, False, [n for n in names if 'has_flags' in ent_features(dumps[n])]))
     # (E-binary) shipped
     shards.append(('bin_ship',))
     # (B) lazy loading
@@ -1297,8 +1342,8 @@ def run(ctx: core.Ctx) -> None:
     # (E-text 2) and (E-binary) generated
     depth = 2
     core_depth = 2 if q else 3
-    gen_shards = lattice_shards('gen', get_menus(), depth, core_depth)
-    bin_shards = lattice_shards('bin_gen', get_bin_menus(), depth, core_depth)
+    gen_shards = lattice_shards('gen', get_menus(), depth, core_depth, 400)
+    bin_shards = lattice_shards('bin_gen', get_bin_menus(), depth, core_depth, 60)
     shards += gen_shards + bin_shards
 
     # big shards first (better packing); the seed only rotates ties
@@ -1312,7 +1357,7 @@ def run(ctx: core.Ctx) -> None:
             n = 1
             for f in s[1]:
                 n *= sum(1 for _, c, _ in menu[f] if c or not s[2])
-            return n * (4 if s[0] == 'gen' else 6)
+            return n // s[4] * (4 if s[0] == 'gen' else 20)
         if s[0] == 'ship_ents':
             return len(s[3]) * 12
         if s[0] == 'lazy':
@@ -1334,8 +1379,8 @@ def run(ctx: core.Ctx) -> None:
     gm, bm = get_menus(), get_bin_menus()
     ctx.coverage_extra['text_lattice'] = {f: len(v) for f, v in sorted(gm.items())}
     ctx.coverage_extra['binary_lattice'] = {f: len(v) for f, v in sorted(bm.items())}
-    ctx.coverage_extra['generated_text_cases'] = sum(1 for s in gen_shards for _ in enum_devs(gm, s[1], s[2])) * 4
-    ctx.coverage_extra['generated_binary_cases'] = sum(1 for s in bin_shards for _ in enum_devs(bm, s[1], s[2]))
+    ctx.coverage_extra['generated_text_cases'] = lattice_count(gm, gen_shards) * 4
+    ctx.coverage_extra['generated_binary_cases'] = lattice_count(bm, bin_shards)
     ctx.rule = (
         f'(text 1) the whole bundled database ({len(dumps)} definitions) and each definition exported alone with its bases, '
         f'x custom_syntax x label_spawnflags; (text 2) base FGD + every choice of <= {depth} deviating fields out of '
